@@ -322,7 +322,16 @@ def merge_files(s, rng, tmpdir):
     elif r < 0.14:
         paths.insert(rng.randint(0, len(paths)), os.path.join(tmpdir, 'gone.mos.xml'))
         flavour = 'missing-file'
-    elif r < 0.18:
+    elif r < 0.17:
+        d_ = os.path.join(tmpdir, 'a-directory.mos.xml')
+        os.makedirs(d_, exist_ok=True)
+        paths.insert(rng.randint(0, len(paths)), d_)
+        flavour = 'directory-among-inputs'
+    elif r < 0.19 and paths:
+        # a path that runs THROUGH a regular file
+        paths.insert(rng.randint(0, len(paths)), os.path.join(paths[0], 'below-a-file.mos.xml'))
+        flavour = 'path-through-a-file'
+    elif r < 0.22:
         paths = []
         flavour = 'no-input'
     return paths, flavour
@@ -338,7 +347,7 @@ def check_merge(s, rng, tmpdir, idx):
         argv.append(rng.choice(['-i', '--incomplete']))
     if non_strict:
         argv.append(rng.choice(['-n', '--non-strict']))
-    outpath = os.path.join(tmpdir, 'out-%d.xml' % idx)
+    outpath = os.path.join(tmpdir, 'out-%d%s' % (idx, rng.choice(['.xml', '.xml', '', '.mos.xml', '.merged', '.2021-01-01'])))
     preexisting = None
     if outfile:
         r = rng.random()
@@ -349,6 +358,9 @@ def check_merge(s, rng, tmpdir, idx):
                 outpath = rng.choice(cand)
                 flavour += '+out-is-input'
                 preexisting = open(outpath, 'rb').read()
+        elif r < 0.14:
+            os.makedirs(outpath, exist_ok=True)        # the -o target is a directory
+            flavour += '+outfile-is-a-directory'
         elif r < 0.55:
             # an older, longer result is already there
             preexisting = ('<mos>' + '<old>previous result</old>' * rng.randint(50, 400) + '</mos>\n').encode()
@@ -356,24 +368,27 @@ def check_merge(s, rng, tmpdir, idx):
                 f.write(preexisting)
         argv += ['-o', outpath]
     # sometimes -o names a bare file in the working directory (no directory part at all)
-    bare = outfile and preexisting is None and '+out-is-input' not in flavour and rng.random() < 0.25
+    bare = outfile and preexisting is None and '+out-is-input' not in flavour and 'directory' not in flavour and rng.random() < 0.25
     cwd = os.getcwd()
     try:
         if bare:
             os.chdir(tmpdir)
-            outpath = 'out-%d.xml' % idx
+            outpath = 'out-%d%s' % (idx, rng.choice(['.xml', '', '.merged']))
             argv[argv.index('-o') + 1] = outpath
             flavour += '+bare-outfile'
             s.hist['cli:merge:bare-outfile'] += 1
         judge_merge(s, argv, paths, flavour, inc, non_strict, outfile, outpath, preexisting)
-        if os.path.exists(outpath):
+        if os.path.isdir(outpath):
+            shutil.rmtree(outpath, ignore_errors=True)
+        elif os.path.exists(outpath):
             os.unlink(outpath)
     finally:
         os.chdir(cwd)
 
 
 def judge_merge(s, argv, paths, flavour, inc, non_strict, outfile, outpath, preexisting):
-    snapshot = [(p, 'merge', open(p, 'rb').read().decode('latin-1') if os.path.isfile(p) else None) for p in paths]
+    snapshot = [(p, 'dir' if os.path.isdir(p) else 'merge', open(p, 'rb').read().decode('latin-1') if os.path.isfile(p) else None)
+                for p in paths]
     # what the library computes
     import mosromgr.moscollection as mcmod
     want_text, want_err = None, None
@@ -404,7 +419,13 @@ def judge_merge(s, argv, paths, flavour, inc, non_strict, outfile, outpath, pree
                       'preexisting': None if preexisting is None else preexisting.decode('latin-1')}}
     det = {'flavour': flavour, 'options': {'incomplete': inc, 'non_strict': non_strict, 'outfile': outfile},
            'library': type(want_err).__name__ if want_err else 'ok', 'rc': rc, 'stderr': err[:200]}
-    if want_err is None:
+    if want_err is None and outfile and os.path.isdir(outpath):
+        # the merge itself is fine, but the result cannot be written: an error like any other
+        if rc != 2:
+            s.custom_violation('merge-error-status-not-2', det, wit, msg_kind='merge', status='outfile-is-a-directory')
+        if not err.strip():
+            s.custom_violation('merge-error-without-stderr-message', det, wit, msg_kind='merge', status='outfile-is-a-directory')
+    elif want_err is None:
         if rc not in (None, 0):
             s.custom_violation('merge-nonzero-status-on-success', det, wit, msg_kind='merge', status='ok')
         if outfile:
@@ -421,7 +442,7 @@ def judge_merge(s, argv, paths, flavour, inc, non_strict, outfile, outpath, pree
             s.custom_violation('merge-error-without-stderr-message', det, wit, msg_kind='merge', status=flavour)
         if outfile:
             # nothing was merged, so nothing may have been written: the path is as it was
-            now = open(outpath, 'rb').read() if os.path.exists(outpath) else None
+            now = open(outpath, 'rb').read() if os.path.isfile(outpath) else None
             if now != preexisting:
                 s.custom_violation('merge-error-but-output-file-written', dict(det, existed_before=preexisting is not None),
                                    wit, msg_kind='merge', status='-o')
@@ -679,13 +700,17 @@ def replay(s, data):
             if q['outfile']:
                 if os.path.dirname(q['outpath']):
                     os.makedirs(os.path.dirname(q['outpath']), exist_ok=True)
-                if pre is not None:
+                if 'outfile-is-a-directory' in q['flavour']:
+                    os.makedirs(q['outpath'], exist_ok=True)
+                elif pre is not None:
                     open(q['outpath'], 'wb').write(pre)
                 elif os.path.exists(q['outpath']):
                     os.unlink(q['outpath'])
             judge_merge(s, w['argv'], [p for p, _, _ in w['files']], q['flavour'], q['inc'], q['non_strict'],
                         q['outfile'], q['outpath'], pre)
-            if os.path.exists(q['outpath']):
+            if os.path.isdir(q['outpath']):
+                shutil.rmtree(q['outpath'], ignore_errors=True)
+            elif os.path.exists(q['outpath']):
                 os.unlink(q['outpath'])
             os.chdir(cwd)
         elif w.get('judge') == 'subprocess':
